@@ -19,7 +19,13 @@ import (
 // strings / dictionaries / big integers / nested values / stored containers,
 // self / mutual / closure / method / interface-default / initializer / callback
 // recursion, built-ins that loop internally inside an endless loop, exact-depth
-// recursion) run under computation limits {1e3,1e4,1e5}, memory limits
+// recursion; feedback loops that feed the result of every allocating built-in
+// (String.join / replaceAll / split+join / concat / templates / toLower / slice /
+// toString / encodeHex / fromUTF8 / decodeHex / fromCharacters, Array concat / map /
+// filter / reverse / slice / appendAll / insert / toVariableSized, dictionary
+// inserts / keys / values, big-integer arithmetic and byte conversions) back into
+// it under SMALL memory limits {1e4,3e4}: the memory limit error must be raised
+// before the value reaches 64x (slow seeds: 8x) the limit - bounded growth) run under computation limits {1e3,1e4,1e5}, memory limits
 // {3e6,3e7} and StackDepthLimit {10,100,default}, on both engines, inside child
 // processes watched by a watchdog.
 
@@ -85,6 +91,19 @@ func boundVerdict(bc execgen.BoundCase, br *execgen.BoundResult) (class, viol, i
 		limit = defaultDepth
 	}
 	switch {
+	case bc.GrowthBound > 0:
+		// feedback loop through an allocating built-in: bounded growth
+		switch class {
+		case "memory-limit", "computation-limit":
+		case "ok":
+			return class, fmt.Sprintf("bounded growth: the value grew to >= %d bytes = %dx the memory limit %d and the program returned normally; no memory limit error was raised (memory metered in total: %d, computation %d)",
+				bc.GrowthBound, bc.GrowthBound/bc.MemLimit, bc.MemLimit, br.MemTotal, br.CompTotal), ""
+		default:
+			if br.Class != "user" {
+				return class, fmt.Sprintf("growth seed ended with a %s error instead of a user-visible limit error: %s %s", br.Class, br.Root, br.ErrMsg), ""
+			}
+			return class, "", fmt.Sprintf("growth seed failed with an unrelated user error (seed bug): %s %s", br.Root, br.ErrMsg)
+		}
 	case bc.Depth > 0:
 		// exact-depth recursion with generous metering limits
 		d := uint64(bc.Depth)
@@ -191,7 +210,7 @@ func runBoundJobs(cases []execgen.BoundCase, budget time.Duration, workers int) 
 }
 
 func TestC30(t *testing.T) {
-	rec := evid.Start(t, "C30", "cases = divergence seed x amplification x computation limit {1e3,1e4,1e5} x memory limit {3e6,3e7} x StackDepthLimit {10,100,default} x engine, each run in a watched child process; "+
+	rec := evid.Start(t, "C30", "cases = divergence seed x amplification x computation limit {1e3,1e4,1e5} x memory limit {3e6,3e7} x StackDepthLimit {10,100,default} x engine, plus feedback-growth seed x memory limit {1e4,3e4} x engine (a memory limit error must precede growth to 64x the limit), each run in a watched child process; "+
 		"non-trivial = a computation / memory / call-depth limit error was the outcome; distinct by (seed program, engine, limits)")
 
 	budget := 120 * time.Second
@@ -235,6 +254,11 @@ func TestC30(t *testing.T) {
 	}
 
 	cases := execgen.BoundCases(evid.Rand(30), evid.N(420, 3000))
+	// bounded growth: every feedback seed (quick: one memory limit each; thorough: 4 draws)
+	grnd := evid.Rand(3030)
+	for k := 0; k < evid.N(1, 4); k++ {
+		cases = append(cases, execgen.GrowthCases(grnd, 0)...)
+	}
 	var mine []execgen.BoundCase
 	for i, c := range cases {
 		if (i/2)%evid.Shards() == evid.Shard() {
